@@ -41,6 +41,11 @@ def index_jobs(tier):
              "_obligation": "O1", "_covers": ["ran"], "unwind": 60} for u in (0, 1) for i, nm in enumerate(("save", "update", "delete"))]
 
 
+def fetch_jobs(tier):
+    return [{"id": f"O1.fetch.n{n}", "func": "VerifH_C05_FetchFaults", "conf": {"n": n, "window": 24, "dag": "", "orders": "all", "shortid": 0},
+             "_obligation": "O1", "_covers": ["ran"], "unwind": 60} for n in ((2,) if tier == "quick" else (2, 3))]
+
+
 def seq_jobs(tier):
     return [{"id": "O1.sequence", "func": "VerifH_C14_FaultPropagation", "conf": {}, "_obligation": "O1+O2", "_covers": ["ran"]}]
 
@@ -60,6 +65,8 @@ PROPERTY = {
         dict(_c20.SAVE_SUITE, name="save", jobs=save_jobs),
         dict(_c02.SUITE, name="ensuretxn", jobs=ensure_jobs, files=["zz_verif_env.go", "zz_verif_merge.go", "zz_verif_c05txn.go"]),
         dict(_c02.SUITE, name="index", jobs=index_jobs, files=["zz_verif_env.go", "zz_verif_merge.go", "zz_verif_c07uniq.go", "zz_verif_c07maint.go"]),
+        {"name": "fetch", "pkg": "internal/db/fetcher", "files": ["zz_verif_c03.go", "zz_verif_c07.go", "zz_verif_c05fetch.go"],
+         "common": ["intrinsics", "kvmodel", "dagenv"], "jobs": fetch_jobs, "unwind": 60, "overrides": {"github.com/sourcenetwork/defradb/client.CborNil": "bytes:f6"}},
         {"name": "sequence", "pkg": "internal/db/sequence", "files": ["zz_verif_c14.go"], "common": ["intrinsics", "kvmodel"], "jobs": seq_jobs},
         {"name": "txn", "pkg": "internal/datastore", "files": ["zz_verif_txn.go"], "common": ["intrinsics", "kvmodel"], "jobs": txn_jobs},
     ],
